@@ -1,3 +1,4 @@
+import GN.Driver.C09
 import GN.Driver.C10
 import GN.Driver.C11
 import GN.Driver.C12
@@ -16,6 +17,7 @@ open GN
 def dispatch (line : String) : String :=
   if line.startsWith "#" then "COMMENT" else
   match (line.trimAscii.toString.splitOn " ").filter (· != "") with
+  | "C09" :: rest => GN.Driver.C09.handle rest
   | "C10" :: rest => GN.Driver.C10.handle rest
   | "C11" :: rest => GN.Driver.C11.handle rest
   | "C12" :: rest => GN.Driver.C12.handle rest
